@@ -150,8 +150,8 @@ def run(ck):
             try:
                 res = A.intersect(B)
             except Exception as e:      # noqa
-                if isinstance(e, ValueError) and 'nodal' in str(e):
-                    continue            # a point-like Bezier against a line is refused with an explicit ValueError: nothing is returned, nothing to judge
+                if (A is z1 or A is z2 or B is z1 or B is z2) and ((isinstance(e, ValueError) and 'nodal' in str(e)) or isinstance(e, AssertionError)):
+                    continue            # a point-like member against a curve is refused (explicit ValueError / assert line[0] != line[1]): nothing is returned, nothing to judge
                 ck.disagree(key='Path.intersect/raises-' + type(e).__name__, site='svgpathtools/path.py:Path.intersect', what='%s raised %r' % (name, e),
                             case={'family': name}, expected='list', observed=repr(e), driver='path')
                 continue
